@@ -229,7 +229,7 @@ pub fn judge_plain(input: &[u8], acc: &mut Acc) {
 }
 
 pub fn run(run: &Run) {
-    let b = v1_bounds_derived(run.tier);
+    let b = if run.tier == Tier::Thorough { v1_bounds(run.tier) } else { v1_bounds_derived(run.tier) };
     explore_all(run, &v1_universes(&b));
     run.explore(&super::c06::ux_bytes(run.tier.pick(5, 6)));
     run.explore(&super::c06::ux_mixed());
